@@ -37,7 +37,22 @@ def run(ctx):
     cases_a = cliprops.gen_cases(ctx, n_a, copts, lambda rng: {"p_fail": rng.choice([0.0, 0.3]), "p_partial": 0.1,
                                                              "clock": False, "p_restart": 1.0, "extra_iters": 6,
                                                              "p_stop_mid": 0.4})
+    # the same with the trashbin on and healthy handlers: the trashed objects (and the bus
+    # timestamps stored with them, which are not whole seconds) go through every checkpoint
+    class _Ctx2:
+        seed = ctx.seed + 17
+    trash = cliprops.gen_cases(_Ctx2, ctx.n(30, 600), lambda rng: {"retention": 1, "remediation": "disabled",
+                                                                   "fkpolicy": rng.choice(["disabled", "on_remove_event"])},
+                               lambda rng: {"p_fail": 0.0, "clock": False, "p_restart": 1.0, "extra_iters": 3, "p_stop_mid": 0.3})
+    for c in trash:
+        c["subsecond"] = True
     res_a, failing_a = cliprops.run_and_eval(ctx, cases_a, "c07_case", "c11a")
+    res_t = srvprops.run_cases(ctx, trash, modname="clicase")
+    errs = [(i, e) for i, (o, g, e) in enumerate(res_t) if e]
+    if errs:
+        raise RuntimeError(f"client driver error on trashbin case {errs[0][0]}:\n{errs[0][1]}")
+    failing_t = srvprops.coq_eval(ctx, "c11t", [g for _, g, _ in res_t], f="corr_ccase", g="c11_trash_case",
+                                  require="Corr.RunC10", typ="ccase", checker="check_ccases", shard=25)
     sub = cliprops.sub_oracles(ctx, res_a, failing_a, ["c07_fifo_case", "c07_complete_case", "c07_healed_case"], "c11asub")
     violations, corr = [], []
     import props.c07 as c07
@@ -52,6 +67,12 @@ def run(ctx):
             violations.append({"sig": sig, "what": f"graceful stop at every loop boundary: handler log / final state differ from what the bus owes (case {i})", **rep})
         elif not c_ok:
             corr.append({"what": f"corr_client (stop at every boundary): client model != GenericClient on case {i}", **rep})
+    for i, (c_ok, o_ok) in sorted(failing_t.items()):
+        rep = {"replay_kind": "client_case", "case": common.enc(trash[i])}
+        if not o_ok:
+            violations.append({"sig": None, "what": f"graceful stops with trashed objects: a handler invoked out of order / the final state differs from what the bus owes (trashbin case {i})", **rep})
+        elif not c_ok:
+            corr.append({"what": f"corr_client (stops, trashbin): client model != GenericClient on trashbin case {i}", **rep})
     # ---- (b) process death after every file-system mutation and handler call of one iteration
     n_b = ctx.n(24, 400)
     maxp = None if ctx.tier == "thorough" else 40
